@@ -825,13 +825,15 @@ def oracle_mf(case, obs):
     if mode == "TID" and lost:
         fail("slice_lost", "tid mode never drops a slice", lost)
     if mode == "DROP":
-        # nothing is dropped without a reason: a dropped slice partially overlaps an input slice of its rank and kind
-        # (or shares more than a point with a slice of the other kind: a device stream may be given the host
-        # stream's tid while the overlaps are resolved, and device slices start a few cycles after TS1)
+        # nothing is dropped without a reason: a dropped host slice partially overlaps another host slice of its rank
+        # (they share one lane), a dropped device slice shares more than a point with another device slice of its
+        # stream (device slices start a few cycles after TS1, so the test is the loose one there).  Host and device
+        # slices never share a lane: since the repair of the lane-1000 defect (36b7974) a device stream is no longer given
+        # the host lane's tid while overlaps are resolved, and a drop "because of" a slice of the other kind is a failure.
         for u in lost:
             o = inp[u]
-            if not any(v is not o and v[0] == o[0] and
-                       (partial_overlap(o[4:], v[4:]) if v[2] == o[2] else (o[4] < v[5] and v[4] < o[5]))
+            if not any(v is not o and v[0] == o[0] and v[2] == o[2] and
+                       (partial_overlap(o[4:], v[4:]) if not o[2] else (v[3] == o[3] and o[4] < v[5] and v[4] < o[5]))
                        for v in inp.values()):
                 fail("dropped_without_overlap", "only partially overlapping slices are dropped",
                      {"uid": u, "slice": list(o)})
